@@ -34,13 +34,13 @@ FIXED = [
  ("C20", "fix: compose without a destination", "POST .../compose with a body lacking \"destination\" -> nil dereference"),
  ("C20", "fix: DELETE on the bucket collection", "file store: DELETE /storage/v1/b removes the store's root directory (every bucket)"),
  ("C20", "fix: rows with an empty key", "MutateRow with an empty row key is stored; ReadRows then emits a chunk without a row key"),
+ ("C20", "fix: DropRowRange(all) on a table deleted", "disk engine: DropRowRange(all) on a table that is concurrently deleted and re-created: the deleted table's object clears/re-opens the directory the new table owns; the second open fails on the leveldb file lock and the handler panics (recorded as an open finding until repaired)"),
+ ("C08", "fix: a ModifyColumnFamilies racing DeleteTable", "disk engine: ModifyColumnFamilies that looked the table up before a concurrent DeleteTable (+ CreateTable of the same name) persists the deleted table's definition: after a restart the re-created table has the old families, or the deleted table is back (replays in findings/)"),
  ("C20", "fix: a metadata PATCH with the body", "PATCH of an object's metadata with the JSON body null -> nil dereference"),
  ("C20", "fix: downloading an object marked gzip", "GET alt=media of an object with contentEncoding=gzip whose bytes are not gzip -> nil dereference"),
  ("C17", "fix: leveldb row iteration ignored", "leveldb engines: a filter error raised on a non-last row is overwritten by the next row; read ends OK with the row missing (btree returns InvalidArgument; seen through C05)"),
 ]
 OPEN = [
- {"status": "open", "property": "C20", "id": "deleted-table-object-shares-directory", "witness": "disk-clear-races-table-recreate",
-  "what": "disk engine: DropRowRange(all) on a table that is concurrently deleted and re-created: the deleted table's object still clears/re-opens the directory the new table owns; the second open fails on the leveldb file lock and the handler panics"},
  {"status": "open", "property": "C10", "id": "generation-is-wall-clock-stalled", "witness": "generation-equal-under-stalled-clock",
   "what": "the generation is the wall clock in nanoseconds: two content writes to one name at the same clock reading (stalled / coarse clock) get equal generations"},
  {"status": "open", "property": "C10", "id": "generation-is-wall-clock-backward", "witness": "generation-after-backward-clock-step",
